@@ -49,14 +49,13 @@ def normalized_contract(m, mo, args, tys, dty):
         while x % 10 ** (k + 1) == 0:
             k += 1
         return Agg('struct', 'BigDecimal', [x // 10 ** k, s - k])
-    conds = [z3.And(x % 10 ** k == 0, x % 10 ** (k + 1) != 0) for k in range(K + 1)] + [x % 10 ** (K + 1) == 0]
-    k = m.choose(conds)
+    # x == n_k * 10^k with n_k not divisible by ten (one fresh n_k per alternative: existential reading, exclusive and exhaustive)
+    ns = [m.fresh('norm') for _ in range(K + 2)]
+    k = m.choose_n(K + 2, lambda k: z3.And(x == ns[k] * 10 ** k, ns[k] % 10 != 0) if k <= K else (x == ns[k] * 10 ** (K + 1)))
     if k == K + 1:
         m.labels.add('outside:normalized-more-than-%d-trailing-zeros' % K)
         raise E.Infeasible()
-    n = m.fresh('norm')
-    m.assume(x == n * 10 ** k)
-    return Agg('struct', 'BigDecimal', [n, s - k])
+    return Agg('struct', 'BigDecimal', [ns[k], s - k])
 
 
 EQ_CONTRACTS = [
